@@ -18,7 +18,7 @@ def order_imports_generic : List String :=
 
 /-- M1 `mapping`: stored id ↦ position, for every entry -/
 def get_mapping_generic : List String :=
-  ["for", ".get_id()", ".insert()"]
+  ["HashMap::new()", "for", ".get_id()", ".insert()"]
 
 /-- M1 `recalc`: reorganise, order the imports, build the mapping; the length assertion -/
 def recalculate_ids : List String :=
@@ -43,21 +43,26 @@ def delete_memory : List String :=
 /-- M2 `replaceImport` (module side): the import entry that designates the function is found by its stored function id, marked deleted, and the function's kind becomes local -/
 def convert_import_fn_to_local : List String :=
   [".position()", "matches!", ".kind()", "Import()", "if", ".map()", "else", "return", ".func_id =",
-   ".delete_func()", ".get_mut()", ".set_kind()", "Local()"]
+   ".delete_func()", ".get_mut()", ".set_kind()", "Local()", "Box::new(local_function)"]
 
 /-- M2 / M14 `replaceImport` (builder side): the final `end`; the import must be a function import whose type equals the built signature; the new local function takes the import's own type id and is named after the import's field -/
 def replace_import_in_module_with_tag : List String :=
-  [".end()", ".get()", "if", "Func()", "if", ".get()", "TypeID()", "if", ".params()", ".results()", "TypeID()",
-   ".name =", ".to_string()", ".convert_import_fn_to_local()", "else", "panic!", "else", "panic!", "else", "panic!"]
+  [".end()", ".get()", "if", "Func()", "if", ".get()", "TypeID()", "if", ".params()", ".results()",
+   "LocalFunction::new(TypeID(imp_ty_id),FunctionID(*import_id),self.body.clone(),self.params.len(),Some(tag))",
+   "TypeID()", ".name =", ".to_string()", ".convert_import_fn_to_local()", "else", "panic!", "else", "panic!",
+   "else", "panic!"]
 
 /-- M2 `localToImport`: refused for imports; the import is appended to the import list and the function's kind becomes import -/
 def convert_local_fn_to_import_with_tag : List String :=
-  ["if", ".is_import()", "return", ".delete_func()", ".add_import()", ".leak()", ".leak()", "Func()", ".get_mut()",
-   ".set_kind()", "Import()", "assert!", ".set_imported_fn_name()"]
+  ["if", ".is_import()", "return", ".delete_func()", ".add_import()",
+   "Import{module:module.leak(),name:name.clone().leak(),ty:TypeRef::Func(*ty_id),custom_name:None,deleted:false,tag:Some(tag)}",
+   ".leak()", ".leak()", "Func()", ".get_mut()", ".set_kind()", "Import()",
+   "ImportedFunction{import_id,import_fn_id:function_id,ty_id}", "assert!", ".set_imported_fn_name()"]
 
 /-- M14 `finishModule` (module side): the signature is interned, the local-function counter bumped, the function appended -/
 def add_local_func_with_tag : List String :=
-  [".add_func_type()", ".num_local_functions +=", ".add_local_func()"]
+  [".add_func_type()", "LocalFunction::new(ty,FunctionID(0),body,params.len(),Some(tag))", ".num_local_functions +=",
+   ".add_local_func()"]
 
 /-- M14 `finishModule` (builder side): the final `end`, then the module side; the id assertion -/
 def finish_module_with_tag : List String :=
@@ -65,11 +70,14 @@ def finish_module_with_tag : List String :=
 
 /-- M5 `addType`: an equal type already present is returned; otherwise a new id, its own recursion group when explicit -/
 def add_type : List String :=
-  [".contains_key()", ".entry()", ".or_insert()", "TypeID()", "if", ".insert()", ".push()"]
+  [".contains_key()", ".entry()", ".or_insert()", "TypeID()", "if", ".insert()", ".push()",
+   "RecGroup::new(vec![ty_id],false)"]
 
 /-- M5 `addFuncType`: a final function type without supertype, interned through `add_type` -/
 def add_func_type : List String :=
-  [".into_boxed_slice()", ".into_boxed_slice()", ".add_type()"]
+  [
+   "Types::FuncType{params:param.to_vec().into_boxed_slice(),results:ret.to_vec().into_boxed_slice(),super_type:None,is_final:true,shared:false,tag}",
+   ".into_boxed_slice()", ".into_boxed_slice()", ".add_type()"]
 
 /-- M6 `addLocal`: the number of locals grows by one; the last run is extended when its type is the new local's type, otherwise a new run of one -/
 def add_local : List String :=
@@ -101,12 +109,17 @@ def set_fn_name : List String :=
 
 /-- M2 / M13 `addGlobal`: a local global appended -/
 def add_global_with_tag : List String :=
-  [".add_global_internal()", "Local()", "GlobalID()"]
+  [".add_global_internal()", "Local()", "GlobalID()",
+   "GlobalType{mutable,content_type:wasmparser::ValType::from(&content_ty),shared}"]
 
 /-- M2 `addImportGlobal`: the import entry, then the global in the imported prefix; the id reported is the number of imported globals before the call -/
 def add_imported_global_with_tag : List String :=
-  [".add_import()", ".leak()", ".leak()", "Global()", ".add_global_internal()", "Import()", "GlobalID()",
-   ".recalculate_ids =", "GlobalID()"]
+  ["GlobalType{mutable,content_type:wasmparser::ValType::from(&content_ty),shared}", ".add_import()",
+   "Import{module:module.leak(),name:name.leak(),ty:TypeRef::Global(global_ty),custom_name:None,deleted:false,tag:Some(tag.clone())}",
+   ".leak()", ".leak()", "Global()", ".add_global_internal()",
+   "Global::new(GlobalKind::Import(ImportedGlobal::new(imp_id,GlobalID(imp_global_id),global_ty,)),Some(tag))",
+   "Import()", "ImportedGlobal::new(imp_id,GlobalID(imp_global_id),global_ty)", "GlobalID()", ".recalculate_ids =",
+   "GlobalID()"]
 
 /-- M13 `addData`: the segment appended, its index returned -/
 def add_data : List String :=
@@ -114,14 +127,52 @@ def add_data : List String :=
 
 /-- M2 `addLocalMemory`: a local memory appended -/
 def add_local_memory_with_tag : List String :=
-  ["MemoryID()", ".num_local_memories +=", ".add_local_mem()"]
+  ["LocalMemory{mem_id:MemoryID(0)}", "MemoryID()", ".num_local_memories +=", ".add_local_mem()"]
 
 /-- M2 `addImportMemory`: the import entry, then the memory in the imported prefix -/
 def add_import_memory_with_tag : List String :=
-  [".add_import()", ".leak()", ".leak()", "Memory()", ".add_import_mem()", "MemoryID()"]
+  [".add_import()",
+   "Import{module:module.leak(),name:name.clone().leak(),ty:TypeRef::Memory(ty),custom_name:None,deleted:false,tag:Some(tag.clone())}",
+   ".leak()", ".leak()", "Memory()", ".add_import_mem()", "MemoryID()"]
 
 /-- M2 `addImportFunc`: the import entry, then the function in the imported prefix -/
 def add_import_func_with_tag : List String :=
-  [".add_import()", ".leak()", ".leak()", "Func()", ".add_import_func()"]
+  [".add_import()",
+   "Import{module:module.leak(),name:name.clone().leak(),ty:TypeRef::Func(*ty_id),custom_name:None,deleted:false,tag:Some(tag)}",
+   ".leak()", ".leak()", "Func()", ".add_import_func()"]
+
+/-- M8 `Custom.parsed`: the parsed sections in order, names and bytes borrowed as they are -/
+def custom_new : List String :=
+  ["CustomSections{",
+   "custom_sections: custom_sections.iter().map(|cs| CustomSection::new_borrowed(cs.0,cs.1)).collect(),}"]
+
+/-- M8 `Custom.getId`: the first section with that name, by position -/
+def custom_get_id : List String :=
+  ["for(index,section)in self.custom_sections.iter().enumerate(){", "if section.name == name{",
+   "return Some(CustomSectionID(index as u32));", "}", "}", "None"]
+
+/-- M8 `Custom.getById`: in range or a panic -/
+def custom_get_by_id : List String :=
+  ["if *custom_section_id < self.custom_sections.len()as u32{",
+   "return &self.custom_sections[*custom_section_id as usize];", "}", "panic!('');"]
+
+/-- M8 `Custom.delete`: removes the section at that position when in range (later sections move down), otherwise nothing -/
+def custom_delete : List String :=
+  ["if *id < self.custom_sections.len()as u32{", "self.custom_sections.remove(*id as usize);", "}"]
+
+/-- M8 `Custom.modify`: the bytes of the section at that position, when in range -/
+def custom_get_section_data_mut : List String :=
+  ["if *section_id < self.custom_sections.len()as u32{",
+   "Some(self.custom_sections[*section_id as usize].data.to_mut())}", "else{", "None}"]
+
+/-- M8 `Custom.add`: appended; the returned id is the old length -/
+def custom_add : List String :=
+  ["let id = CustomSectionID(self.custom_sections.len()as u32);", "self.custom_sections.push(section);", "id"]
+
+/-- M6 `Locals.addLocal` word for word: the returned index is `num_params + num_locals`; the last run grows when its type is the requested one, otherwise a new run of one is appended -/
+def add_local_text : List String :=
+  ["let index = num_params + *num_locals as usize;", "let len = locals.len();", "*num_locals += 1;", "if len > 0{",
+   "let last = len - 1;", "if locals[last].1 == ty{", "locals[last].0 += 1;", "}", "else{", "locals.push((1,ty));",
+   "}", "}", "else{", "locals.push((1,ty));", "}", "LocalID(index as u32)"]
 
 end Orca.ApiOutlineSpec
